@@ -3,6 +3,7 @@ package main
 import (
 	"fmt"
 	"go/ast"
+	"go/constant"
 	"go/token"
 	"go/types"
 	"sort"
@@ -954,3 +955,254 @@ func tsName(m uint) string {
 
 func ruleR02c(c *Ctx) { ruleScopeTypestate(c, "R02c") }
 func ruleR08b(c *Ctx) { ruleScopeTypestate(c, "R08b") }
+
+// R02d: the loop helper functions look up exactly the keys the loop sets.
+func ruleR02d(c *Ctx) {
+	p := c.pkg("soyhtml")
+	sf := getScopeFacts(c, "soyhtml")
+	if p == nil || sf == nil {
+		return
+	}
+	info := p.TypesInfo
+	suffixes := func(n ast.Node, viaSet bool) map[string]bool {
+		out := map[string]bool{}
+		ast.Inspect(n, func(x ast.Node) bool {
+			be, ok := x.(*ast.BinaryExpr)
+			if !ok || be.Op != token.ADD {
+				return true
+			}
+			if v := info.Types[be.Y].Value; v != nil && v.Kind() == constant.String {
+				out[constant.StringVal(v)] = true
+			}
+			return true
+		})
+		return out
+	}
+	goCases, _ := walkCaseTypes(c, "soyhtml", "state.walk")
+	if goCases == nil || goCases["ForNode"] == nil {
+		c.fatalf("anchor: ForNode case of soyhtml walk not found")
+		return
+	}
+	set := suffixes(goCases["ForNode"], true)
+	looked := map[string]bool{}
+	init := c.mustVarInit("soyhtml", "loopFuncs")
+	if cl, ok := init.(*ast.CompositeLit); ok {
+		for _, el := range cl.Elts {
+			kv, ok := el.(*ast.KeyValueExpr)
+			if !ok {
+				continue
+			}
+			if id, ok := kv.Value.(*ast.Ident); ok {
+				for _, fd := range c.allFuncDecls("soyhtml") {
+					if info.Defs[fd.Name] == info.Uses[id] {
+						for k := range suffixes(fd.Body, false) {
+							looked[k] = true
+						}
+					}
+				}
+			}
+		}
+	}
+	for _, k := range sortedKeys(looked) {
+		c.check(set[k], "R02d", "loop-key "+k, init.Pos(), "looked up by a loop function and set by the loop", "a loop function looks up key suffix "+k+" which the loop never sets: index()/isFirst()/isLast() fail or read a stale value")
+	}
+	c.floor("R02d", "loop key suffixes", 2, len(looked))
+}
+
+// R02e: a called template runs on a state of its own; R02f: every {param} is bound unconditionally.
+func ruleR02e(c *Ctx) {
+	p := c.pkg("soyhtml")
+	sf := getScopeFacts(c, "soyhtml")
+	fd := c.mustFunc("soyhtml", "state.evalCall")
+	if p == nil || sf == nil || fd == nil {
+		return
+	}
+	info := p.TypesInfo
+	stateObj := p.Types.Scope().Lookup("state")
+	var recvObj types.Object
+	if len(fd.Recv.List[0].Names) == 1 {
+		recvObj = info.Defs[fd.Recv.List[0].Names[0]]
+	}
+	// the callee's template: a value obtained from the registry lookup
+	tmplVars := map[types.Object]bool{}
+	ast.Inspect(fd.Body, func(x ast.Node) bool {
+		switch s := x.(type) {
+		case *ast.AssignStmt:
+			if len(s.Rhs) == 1 {
+				if call, ok := ast.Unparen(s.Rhs[0]).(*ast.CallExpr); ok {
+					if cal := calleeFunc(call, info); cal != nil && cal.Name() == "Template" {
+						if id, ok := s.Lhs[0].(*ast.Ident); ok {
+							tmplVars[info.Defs[id]] = true
+						}
+					}
+				}
+			}
+		case *ast.ValueSpec:
+			if len(s.Values) == 1 {
+				if call, ok := ast.Unparen(s.Values[0]).(*ast.CallExpr); ok {
+					if cal := calleeFunc(call, info); cal != nil && cal.Name() == "Template" {
+						tmplVars[info.Defs[s.Names[0]]] = true
+					}
+				}
+			}
+		}
+		return true
+	})
+	mentionsTmpl := func(e ast.Expr) bool {
+		found := false
+		ast.Inspect(e, func(x ast.Node) bool {
+			if id, ok := x.(*ast.Ident); ok && tmplVars[info.Uses[id]] {
+				found = true
+			}
+			return true
+		})
+		return found
+	}
+	n := 0
+	ast.Inspect(fd.Body, func(x ast.Node) bool {
+		call, ok := x.(*ast.CallExpr)
+		if !ok || len(call.Args) != 1 || !mentionsTmpl(call.Args[0]) {
+			return true
+		}
+		se, ok := ast.Unparen(call.Fun).(*ast.SelectorExpr)
+		if !ok {
+			return true
+		}
+		cal := calleeFunc(call, info)
+		if cal == nil || cal.Type().(*types.Signature).Recv() == nil {
+			return true
+		}
+		if rt := namedOf(cal.Type().(*types.Signature).Recv().Type()); rt == nil || rt.Obj() != stateObj {
+			return true
+		}
+		n++
+		key := "soyhtml.state.evalCall#callee-on-own-state"
+		id, isID := ast.Unparen(se.X).(*ast.Ident)
+		switch {
+		case !isID:
+			c.unk("R02e", key, call.Pos(), "the state the callee is walked on is not a plain variable")
+		case info.Uses[id] == recvObj:
+			c.bad("R02e", key, call.Pos(), "the called template is walked on the caller's own state: whatever the callee sets on it (autoescape mode, current template, scope) must be restored by hand on every exit, and is not")
+		default:
+			init := resolveLocalInit(id, fd.Body, info)
+			fresh := false
+			if u, ok := ast.Unparen(init).(*ast.UnaryExpr); ok && u.Op == token.AND {
+				if cl, ok := u.X.(*ast.CompositeLit); ok {
+					if tv, ok := info.Types[cl]; ok && types.Identical(tv.Type, stateObj.Type()) {
+						fresh = true
+					}
+				}
+			}
+			c.check(fresh, "R02e", key, call.Pos(), "the called template is walked on a newly built state", "the state the callee is walked on is not a newly built state literal")
+		}
+		return true
+	})
+	c.floor("R02e", "walks of a called template", 1, n)
+	// R02f: each {param} kind binds its key on every non-raising path of its case
+	nr := newNoRet(c)
+	np := 0
+	ast.Inspect(fd.Body, func(x ast.Node) bool {
+		cc, ok := x.(*ast.CaseClause)
+		if !ok || len(cc.List) != 1 {
+			return true
+		}
+		tv, ok := info.Types[cc.List[0]]
+		if !ok || !tv.IsType() {
+			return true
+		}
+		_, tn, ok := relPkgOfType(tv.Type)
+		if !ok || !strings.HasPrefix(tn, "CallParam") {
+			return true
+		}
+		np++
+		const unbound = 1
+		body := &ast.BlockStmt{List: cc.Body}
+		res := runFlow(body, nr.forInfo(info), flowState{"b": unbound}, func(n ast.Node, st flowState, report bool) flowState {
+			ast.Inspect(n, func(y ast.Node) bool {
+				if call, ok := y.(*ast.CallExpr); ok {
+					if cal := calleeFunc(call, info); cal != nil && sf.set[cal] {
+						st["b"] = 0
+					}
+				}
+				return true
+			})
+			return st
+		})
+		okAll := len(cc.Body) > 0
+		for _, b := range res.exitBlocks() {
+			if blockEndsInNoReturn(b, nr.forInfo(info)) {
+				continue
+			}
+			if res.out[b]["b"]&unbound != 0 {
+				okAll = false
+			}
+		}
+		c.check(okAll, "R02f", "soyhtml.state.evalCall binds "+tn, cc.Pos(), "the param is bound in the callee's data on every non-raising path",
+			"a {param} can be skipped without being bound: the callee then sees the caller's value of that name (with data=\"all\"/data=\"$x\") instead of the passed one")
+		return true
+	})
+	c.floor("R02f", "param kinds bound in evalCall", 2, np)
+}
+
+// R02g: a command body is only ever handed to the tree walker, never taken apart by hand.
+func ruleBlockUse(c *Ctx, rule, rel string) {
+	fields := blockFields(c)
+	p := c.pkg(rel)
+	if fields == nil || p == nil {
+		return
+	}
+	info := p.TypesInfo
+	n := 0
+	for _, fd := range c.allFuncDecls(rel) {
+		var stack []ast.Node
+		ord := map[string]int{}
+		ast.Inspect(fd.Body, func(x ast.Node) bool {
+			if x == nil {
+				stack = stack[:len(stack)-1]
+				return true
+			}
+			stack = append(stack, x)
+			se, ok := x.(*ast.SelectorExpr)
+			if !ok {
+				return true
+			}
+			fv := fieldOfExpr(se, info)
+			name, isBlock := fields[fv]
+			if fv == nil || !isBlock {
+				return true
+			}
+			n++
+			ord[name]++
+			key := fmt.Sprintf("%s uses %s#%d", c.declKey(rel, fd), name, ord[name])
+			parent := stack[len(stack)-2]
+			switch pn := parent.(type) {
+			case *ast.CallExpr:
+				for _, a := range pn.Args {
+					if a == ast.Expr(se) {
+						if cal := calleeFunc(pn, info); cal != nil && cal.Pkg() != nil && cal.Pkg().Path() == modPath+"/"+rel {
+							c.okTrivial(rule, key, se.Pos(), "handed to "+cal.Name()+" as a whole")
+							return true
+						}
+					}
+				}
+			case *ast.BinaryExpr:
+				if pn.Op == token.NEQ || pn.Op == token.EQL {
+					c.okTrivial(rule, key, se.Pos(), "compared with nil")
+					return true
+				}
+			}
+			c.bad(rule, key, se.Pos(), "the command body in "+name+" is taken apart here ("+nodeText(parent)+") instead of being handed to the tree walker: its statements then run without the frame the list walker gives every body, so a {let} inside survives the block (for a loop body: into the next iteration)")
+			return true
+		})
+	}
+	c.floor(rule, "uses of command-body fields", 8, n)
+}
+
+func ruleR02g(c *Ctx) { ruleBlockUse(c, "R02g", "soyhtml") }
+
+func nodeText(n ast.Node) string {
+	if e, ok := n.(ast.Expr); ok {
+		return exprKey(e)
+	}
+	return fmt.Sprintf("%T", n)
+}
